@@ -606,6 +606,9 @@ func (u *Unit) frameSets(f *Frame, fc *FuncContract, pkg *types.Package, entryHe
 // freeVarPrivate: the variable captured as fv is, in the enclosing function, used only by
 // loads, stores and the creation of this very closure.
 func freeVarPrivate(fn *ssa.Function, fv *ssa.FreeVar) bool {
+	if freeVarImmutable(fn, fv) {
+		return true
+	}
 	parent := fn.Parent()
 	if parent == nil {
 		return false
@@ -649,4 +652,83 @@ func freeVarPrivate(fn *ssa.Function, fv *ssa.FreeVar) bool {
 		}
 	}
 	return false
+}
+
+// freeVarImmutable: the captured variable is assigned exactly once (where it is declared or,
+// for a parameter, spilled at function entry) and every other use, in the declaring function
+// and in all closures it is handed to (transitively), only reads it. Its address never leaves
+// these closures, so no call can change its content.
+func freeVarImmutable(fn *ssa.Function, fv *ssa.FreeVar) bool {
+	// resolve the binding up the closure nesting to the declaring Alloc
+	var cur ssa.Value = fv
+	curFn := fn
+	for depth := 0; depth < 8; depth++ {
+		v, ok := cur.(*ssa.FreeVar)
+		if !ok {
+			break
+		}
+		parent := curFn.Parent()
+		if parent == nil {
+			return false
+		}
+		idx := -1
+		for i, x := range curFn.FreeVars {
+			if x == v {
+				idx = i
+			}
+		}
+		var bind ssa.Value
+		for _, b := range parent.Blocks {
+			for _, ins := range b.Instrs {
+				if mc, ok := ins.(*ssa.MakeClosure); ok && mc.Fn == curFn && idx >= 0 && idx < len(mc.Bindings) {
+					if bind != nil && bind != mc.Bindings[idx] {
+						return false
+					}
+					bind = mc.Bindings[idx]
+				}
+			}
+		}
+		if bind == nil {
+			return false
+		}
+		cur, curFn = bind, parent
+	}
+	al, ok := cur.(*ssa.Alloc)
+	if !ok {
+		return false
+	}
+	stores := 0
+	var readsOnly func(v ssa.Value, depth int) bool
+	readsOnly = func(v ssa.Value, depth int) bool {
+		refs := v.Referrers()
+		if refs == nil || depth > 8 {
+			return false
+		}
+		for _, r := range *refs {
+			switch x := r.(type) {
+			case *ssa.Store:
+				if x.Val == v || x.Addr != v {
+					return false
+				}
+				stores++
+			case *ssa.UnOp, *ssa.DebugRef:
+			case *ssa.MakeClosure:
+				cf, ok := x.Fn.(*ssa.Function)
+				if !ok {
+					return false
+				}
+				for j, b := range x.Bindings {
+					if b == v {
+						if j >= len(cf.FreeVars) || !readsOnly(cf.FreeVars[j], depth+1) {
+							return false
+						}
+					}
+				}
+			default:
+				return false
+			}
+		}
+		return true
+	}
+	return readsOnly(al, 0) && stores <= 1
 }
